@@ -217,7 +217,7 @@ def showObj : Obj → String
   | .sig s fr =>
     match s.sketches with
     | sk :: _ =>
-      s!"ok sig fr={b2s fr} name={showStr (Py.nameOf s)} fn={showStr (Py.filenameOf s)} lic={showStr s.license} " ++
+      s!"ok sig fr={b2s fr} nsk={s.sketches.length} name={showStr (Py.nameOf s)} fn={showStr (Py.filenameOf s)} lic={showStr s.license} " ++
       showMHFields sk
     | [] => "err SourmashError"
 
@@ -252,6 +252,7 @@ def viaData (via : String) (d : Doc) (lit : Bool) : Option Py.PyData :=
   | "gz" => some (.bytes (Gen.gzipMagic ++ [8]) false)
   | "path" => some (.str (if lit then "/p/a_".toList ++ Gen.sniffLiteral.toList else "/p/a".toList) true)
   | "ftext" => some .fileLike
+  | "ftexttmp" => some .fileLike
   | "fbin" => some .fileLike
   | "fgz" => some .fileLike
   | _ => none
@@ -364,6 +365,61 @@ def step (st : St) (line : String) : St × String :=
       | some (.sig s true) => fin st r (.ok (.sig s true))
       | none => bad
     | _ => bad
+  | ["params", r, scaled, num, track, seed, ks] =>
+    match nats? [r, scaled, num, seed], bool? track, natList? ks with
+    | some [r, scaled, num, seed], some tr, some ks =>
+      if ks.isEmpty then bad else fin st r (.ok (.sig (Py.fromParams ks scaled num seed tr) false))
+    | _, _, _ => bad
+  | ["update", r, h] =>
+    match nats? [r, h] with
+    | some [r, h] =>
+      match getObj st h with
+      | some (.sig s true) => fin st r ((Py.copySig s).map (fun x => .sig x true))
+      | _ => bad
+    | _ => bad
+  | ["eq", x, y] =>
+    match nats? [x, y] with
+    | some [x, y] =>
+      let ans (r : Except Err Bool) : St × String :=
+        match r with
+        | .ok b => (st, s!"ok {b2s b}")
+        | .error e => (st, "err " ++ errName e)
+      match getObj st x, getObj st y with
+      | some (.sig a _), some (.sig b _) => ans (Py.sigEq a b)
+      | some (.mh a _), some (.mh b _) => ans (Py.mhEq a.mh b.mh)
+      | _, _ => bad
+    | _ => bad
+  | ["recheck"] => (st, "ok")
+  | ["eqp", _, _] => (st, "skip")
+  | ["cli", "describe", _] => (st, "skip")
+  | ["cli", "split", _] => (st, "skip")
+  | "cli" :: sub :: d2 :: d :: rest =>
+    match nats? [d2, d] with
+    | some [d2, d] =>
+      match getDoc st d with
+      | some (.fields doc _) =>
+        let i : Py.LoadIn := { data := .str "/p/a".toList true, empty := false, bufDoc := none, fileDoc := some doc }
+        match Py.loadFromJson i none none true with
+        | .error _ => (st, "err CLI")
+        | .ok sigs =>
+          let outSigs : Option (List Sig) :=
+            match sub, rest with
+            | "cat", [] => some sigs
+            | "rename", [nm] =>
+              match str? nm with
+              | some name =>
+                (sigs.mapM (fun s => match Py.copySig s with
+                  | .ok c => some { c with name := some (cstr name) }
+                  | .error _ => none))
+              | none => none
+            | _, _ => none
+          match outSigs with
+          | some os =>
+            let doc2 := encodeDoc os
+            (putDoc st d2 (.fields doc2 false), showDoc doc2 false ++ " tx=" ++ showText (JsonText.renderDoc md5Marker os))
+          | none => bad
+      | _ => bad
+    | _ => bad
   | ["show", h] =>
     match nat? h with
     | some h =>
@@ -391,6 +447,23 @@ def step (st : St) (line : String) : St × String :=
     match nat? d, (stripPrefix "h" hex).bind (fun h => unhex h.toList), gzTok? g1, gzTok? g2 with
     | some d, some bs, some g1, some g2 => (putDoc st d (.blob (bs.map UInt8.toNat) g1 g2), s!"ok blob n={bs.length}")
     | _, _, _, _ => bad
+  | ["loadone", r, d, via, k, m] =>
+    match nats? [r, d], fld? nat? k, fld? str? m with
+    | some [r, d], some k, some m =>
+      let k := match k with | .val k => some k | _ => none
+      let m := match m with | .val m => some m | _ => none
+      match getDoc st d with
+      | some (.fields doc _) =>
+        match viaData via doc false with
+        | some data =>
+          let i : Py.LoadIn := { data := data, empty := false, bufDoc := if via = "path" then none else some doc,
+                                 fileDoc := if via = "path" then some doc else none }
+          match Py.loadOne i k m with
+          | .ok s => (putObj st r (.sig s true), showObj (.sig s true))
+          | .error e => (st, "err " ++ errName e)
+        | none => bad
+      | _ => bad
+    | _, _, _ => bad
   | ["load", r, d, via, k, m, lit, raise] =>
     match nats? [r, d], fld? nat? k, fld? str? m, bool? lit, bool? raise with
     | some [r, d], some k, some m, some lit, some raise =>
@@ -410,7 +483,7 @@ def step (st : St) (line : String) : St × String :=
           else
             let i : Py.LoadIn := { data := data, empty := false, bufDoc := if via = "path" then none else some doc,
                                    fileDoc := if via = "path" then some doc else none }
-            answer (Py.loadFromJson i k m raise)
+            answer (if via = "ftexttmp" then Py.loadFromTextTemp i k m raise else Py.loadFromJson i k m raise)
         | none => bad
       | some (.blob b g1 g2) =>
         let plain := textOfBytes b
@@ -424,14 +497,19 @@ def step (st : St) (line : String) : St × String :=
           | "path" => some (pathData, b, g1, g2)
           | "fbin" => some (.fileLike, b, g1, g2)
           | "ftext" => some (.fileLike, b, g1, g2)
+          | "ftexttmp" => some (.fileLike, b, g1, g2)
           | "gz" => some (.bytes gzStandIn false, gzStandIn, ⟨b, false⟩, g1)
           | "fgz" => some (.fileLike, gzStandIn, ⟨b, false⟩, g1)
           | _ => none
         match cfg with
         | some (data, content, x1, x2) =>
-          answer (JsonText.pyLoadWith data false
-            (JsonText.ffiLoadBytes false content x1 x2 (k.getD 0) m)
-            (JsonText.ffiLoadBytes true content x1 x2 (k.getD 0) m) raise)
+          if via = "ftexttmp" && Gen.textWrapperDropped then
+            answer (if raise then .error .value else .ok [])
+          else
+            -- `if not data: return` : an empty str / bytes object (a path or a file object is never "empty")
+            answer (JsonText.pyLoadWith data ((via == "str" || via == "bytes") && b.isEmpty)
+              (JsonText.ffiLoadBytes false content x1 x2 (k.getD 0) m)
+              (JsonText.ffiLoadBytes true content x1 x2 (k.getD 0) m) raise)
         | none => bad
       | none => bad
     | _, _, _, _, _ => bad
